@@ -114,60 +114,78 @@ func aCheck(root *JSchema, want []aProp, refuse bool) {
 	zzverif.Assert(same, "Example() shows exactly the merged key set in order")
 }
 
-// VerifC07_Shapes: single parent, chain, two parents, diamond, cycle,
-// non-object parent, missing parent - property keys are symbolic so that
-// overlaps are decided by the solver.
-func VerifC07_Shapes() {
-	zzverif.Expect("merged", "refused")
+// aShape builds one inheritance project: single parent, chain, two parents,
+// diamond, cycle, non-object parent, missing parent - property keys are
+// symbolic so that overlaps are decided by the solver.
+func aShape() (root *JSchema, want []aProp, refuse bool) {
 	shape := zzverif.IntRange("shape", 0, 6)
 	own := aProps("own.", zzverif.IntRange("ownN", 0, 1))
 	switch shape {
 	case 0: // single parent
 		pp := aProps("p.", zzverif.IntRange("pN", 1, 2))
-		root := New("root", aObject(`allOf: "@p"`, own))
+		root = New("root", aObject(`allOf: "@p"`, own))
 		_ = root.AddType("@p", New("@p", aObject("", pp)))
-		want := append(append([]aProp{}, own...), aInherit(pp, "@p")...)
-		aCheck(root, want, aHasDuplicate(want))
+		want = append(append([]aProp{}, own...), aInherit(pp, "@p")...)
+		return root, want, aHasDuplicate(want)
 	case 1: // chain root -> @p -> @q
 		pp := aProps("p.", 1)
 		qq := aProps("q.", 1)
-		root := New("root", aObject(`allOf: "@p"`, own))
+		root = New("root", aObject(`allOf: "@p"`, own))
 		_ = root.AddType("@p", New("@p", aObject(`allOf: "@q"`, pp)))
 		_ = root.AddType("@q", New("@q", aObject("", qq)))
 		pAll := append(append([]aProp{}, pp...), qq...)
-		want := append(append([]aProp{}, own...), aInherit(pAll, "@p")...)
-		aCheck(root, want, aHasDuplicate(want))
+		want = append(append([]aProp{}, own...), aInherit(pAll, "@p")...)
+		return root, want, aHasDuplicate(want)
 	case 2: // two parents
 		pp := aProps("p.", 1)
 		qq := aProps("q.", 1)
-		root := New("root", aObject(`allOf: ["@p", "@q"]`, own))
+		root = New("root", aObject(`allOf: ["@p", "@q"]`, own))
 		_ = root.AddType("@p", New("@p", aObject("", pp)))
 		_ = root.AddType("@q", New("@q", aObject("", qq)))
-		want := append(append(append([]aProp{}, own...), aInherit(pp, "@p")...), aInherit(qq, "@q")...)
-		aCheck(root, want, aHasDuplicate(want))
+		want = append(append(append([]aProp{}, own...), aInherit(pp, "@p")...), aInherit(qq, "@q")...)
+		return root, want, aHasDuplicate(want)
 	case 3: // diamond: both parents inherit the same grandparent
 		rr := aProps("r.", 1)
-		root := New("root", aObject(`allOf: ["@p", "@q"]`, own))
+		root = New("root", aObject(`allOf: ["@p", "@q"]`, own))
 		_ = root.AddType("@p", New("@p", aObject(`allOf: "@r"`, nil)))
 		_ = root.AddType("@q", New("@q", aObject(`allOf: "@r"`, nil)))
 		_ = root.AddType("@r", New("@r", aObject("", rr)))
-		want := append(append(append([]aProp{}, own...), aInherit(rr, "@p")...), aInherit(rr, "@q")...)
-		aCheck(root, want, true) // the grandparent's property arrives twice
+		want = append(append(append([]aProp{}, own...), aInherit(rr, "@p")...), aInherit(rr, "@q")...)
+		return root, want, true // the grandparent's property arrives twice
 	case 4: // cyclic inheritance
-		root := New("root", aObject(`allOf: "@p"`, own))
+		root = New("root", aObject(`allOf: "@p"`, own))
 		_ = root.AddType("@p", New("@p", aObject(`allOf: "@q"`, aProps("p.", 1))))
 		_ = root.AddType("@q", New("@q", aObject(`allOf: "@p"`, aProps("q.", 1))))
-		aCheck(root, nil, true)
+		return root, nil, true
 	case 5: // non-object parent
-		root := New("root", aObject(`allOf: "@p"`, own))
+		root = New("root", aObject(`allOf: "@p"`, own))
 		body := []string{`1`, `"s"`, `[1]`, `@q`}[zzverif.IntRange("body", 0, 3)]
 		_ = root.AddType("@p", New("@p", body))
 		_ = root.AddType("@q", New("@q", `{"z": 1}`))
-		aCheck(root, nil, true)
+		return root, nil, true
 	default: // missing parent
-		root := New("root", aObject(`allOf: "@p"`, own))
-		aCheck(root, nil, true)
+		root = New("root", aObject(`allOf: "@p"`, own))
+		return root, nil, true
 	}
+}
+
+// VerifC07_Shapes: every project of aShape: merged exactly, or refused.
+func VerifC07_Shapes() {
+	zzverif.Expect("merged", "refused")
+	root, want, refuse := aShape()
+	aCheck(root, want, refuse)
+}
+
+// ZzC07Project hands the same project family to the harness of package
+// openapi (the OpenAPI property listing): the root, the expected merged
+// property list (key, optional) and whether Check() has to refuse.
+func ZzC07Project() (root *JSchema, keys []string, optional []bool, refuse bool) {
+	r, want, ref := aShape()
+	for _, p := range want {
+		keys = append(keys, p.key)
+		optional = append(optional, p.optional)
+	}
+	return r, keys, optional, ref
 }
 
 // VerifC07_AdditionalProperties: child and parent additionalProperties from
